@@ -1,4 +1,5 @@
 import ParsecVerif.Proofs.DistRtLive
+import ParsecVerif.Proofs.DistRtTerm
 import ParsecVerif.Props.Runtime
 /-!
 # C05 — distributed PTG results do not depend on process count or message path
@@ -19,6 +20,7 @@ limit and payload sizes, every AGAIN budget, and every run = every sequence of e
   the value of the sequential reference `seqRun`, and so does every copy held by any rank.
 * `C05_rank_invariance_partial` — if every collective activation of the configuration satisfies C13's
   decidable predicate `deliveryOK`, every maximal run ends with all processes terminated and the store of `seqRun`.
+* `C05_step_decreases` — every enabled transition of a reachable state decreases a natural measure: runs are finite.
 * `C05_deadlock_free`, `C05_configurations_agree` — the two halves separately (the second composes
   `Runtime.values_schedule_independent` with the projection of a distributed run onto a single-process run).
 * `C05_rank_invariance` — the property as stated (no side condition): FALSE of the code,
@@ -74,6 +76,17 @@ theorem C05_deadlock_free (hwf : g.WF) (hcf : cf.WF g) (hok : dataOKAll g cf = t
     (ts : List DTr) (hq : ¬ allTerminate g (drun g cf F again ts)) :
     ∃ t, denabled cf (drun g cf F again ts) t = true :=
   dprogress hwf hcf hok (dinv_run hwf hcf ts) hq
+
+/-- **Termination:** every enabled transition of a reachable state strictly decreases the natural number `dmu`
+    (no side condition): no run is infinite — at most `dmu (dinit …) = mu init + 4·nranks·n` effective steps — so
+    every run can be extended to a maximal one, to which the theorems below apply. -/
+theorem C05_step_decreases (hwf : g.WF) (hcf : cf.WF g) (again : List Nat) (ts : List DTr) (t : DTr)
+    (hen : denabled cf (drun g cf F again ts) t = true) :
+    dmu g cf (drun g cf F again (ts ++ [t])) < dmu g cf (drun g cf F again ts) := by
+  have h := dstep_decreases hwf hcf (dinv_run (F := F) (again := again) hwf hcf ts) t hen
+  have e : drun g cf F again (ts ++ [t]) = dstep g cf F (drun g cf F again ts) t := by
+    simp [drun, List.foldl_append]
+  rw [e]; exact h
 
 /-- a distributed run projects onto a run of the single-process machine: same statuses, dependencies, values, log -/
 theorem dist_run_is_run (hwf : g.WF) (hcf : cf.WF g) (again : List Nat) (ts : List DTr) :
